@@ -420,13 +420,79 @@ def m_batchnorm_inference():
     return model([x], [bn.outputs[0]], [bn], [sc, bi, mean, var])
 
 
+def m_graphs_attr():
+    """a custom operator carrying a LIST of bodies (GRAPHS attribute); the bodies capture outer values and hold duplicates"""
+    x, y = fval("x"), fval("y")
+    pre = node("Relu", [x], name="pre")
+    b1a = node("Add", [pre.outputs[0], y], name="b1a")
+    b1b = node("Add", [pre.outputs[0], y], name="b1b")
+    b1c = node("Mul", [b1a.outputs[0], b1b.outputs[0]], name="b1c")
+    body1 = ir.Graph([], [b1c.outputs[0]], nodes=[b1a, b1b, b1c], name="body1")
+    bw = const("bw", arr(9))
+    b2a = node("Sub", [x, bw], name="b2a")
+    b2i = node("Identity", [b2a.outputs[0]], name="b2i")
+    body2 = ir.Graph([], [b2i.outputs[0]], nodes=[b2a, b2i], initializers=[bw], name="body2")
+    multi = ir.Node("custom.ops", "Branches", [y], [ir.AttrGraphs("branches", [body1, body2])], num_outputs=1, name="multi")
+    multi.outputs[0].name = "multi_o0"
+    multi.outputs[0].type = ir.TensorType(F)
+    multi.outputs[0].shape = ir.Shape([2, 3])
+    out = node("Add", [multi.outputs[0], pre.outputs[0]], name="out")
+    return model([x, y], [out.outputs[0]], [pre, multi, out], opsets={"": OPSET, "custom.ops": 1})
+
+
+def m_function_falsy_defaults():
+    """attribute parameters whose declared default is falsy (0 / 0.0): soft<axis=0>(x) = Softmax<axis=@axis>(x);
+    outer<slope=0.0>(x) = inner<alpha=@slope>(x); inner<alpha=0.5>(x) = LeakyRelu<alpha=@alpha>(x); call sites omit them"""
+    x = fval("x")
+    sx = fval("sx")
+    sm = ir.node("Softmax", [sx], name="s_sm")
+    sm.attributes["axis"] = ir.RefAttr("axis", "axis", ir.AttributeType.INT)
+    sm.outputs[0].name = "s_sm_o"
+    soft = ir.Function("local", "soft", graph=ir.Graph([sx], [sm.outputs[0]], nodes=[sm], opset_imports={"": OPSET}, name="soft_body"),
+                       attributes=[ir.AttrInt64("axis", 0)])
+    ix = fval("ix")
+    lr = ir.node("LeakyRelu", [ix], name="i_lr")
+    lr.attributes["alpha"] = ir.RefAttr("alpha", "alpha", ir.AttributeType.FLOAT)
+    lr.outputs[0].name = "i_lr_o"
+    inner = ir.Function("local", "inner", graph=ir.Graph([ix], [lr.outputs[0]], nodes=[lr], opset_imports={"": OPSET}, name="inner_body"),
+                        attributes=[ir.AttrFloat32("alpha", 0.5)])
+    ox = fval("ox")
+    call = ir.node("inner", [ox], domain="local", name="o_call")
+    call.attributes["alpha"] = ir.RefAttr("alpha", "slope", ir.AttributeType.FLOAT)
+    call.outputs[0].name = "o_call_o"
+    outer = ir.Function("local", "outer0", graph=ir.Graph([ox], [call.outputs[0]], nodes=[call], opset_imports={"": OPSET, "local": 1}, name="outer0_body"),
+                        attributes=[ir.AttrFloat32("slope", 0.0)])
+    a = node("soft", [x], domain="local", name="a")
+    b = node("outer0", [x], domain="local", name="b")
+    c = node("soft", [x], {"axis": 1}, domain="local", name="c")
+    s_ = node("Sum", [a.outputs[0], b.outputs[0], c.outputs[0]], name="s")
+    return model([x], [s_.outputs[0]], [a, b, c, s_], functions=[soft, inner, outer], opsets={"": OPSET, "local": 1})
+
+
+def m_const_dtypes():
+    """small Constant nodes with equal shape and equal raw bytes but different element types"""
+    x = fval("x", (2,))
+    k_i8 = node("Constant", [], {"value": ir.tensor(np.array([-1, 2], dtype=np.int8), name="k_i8_t")}, name="k_i8")
+    k_u8 = node("Constant", [], {"value": ir.tensor(np.array([255, 2], dtype=np.uint8), name="k_u8_t")}, name="k_u8")
+    k_i32 = node("Constant", [], {"value": ir.tensor(np.zeros(2, dtype=np.int32), name="k_i32_t")}, name="k_i32")
+    k_f32 = node("Constant", [], {"value": ir.tensor(np.zeros(2, dtype=np.float32), name="k_f32_t")}, name="k_f32")
+    for n_, dt in ((k_i8, ir.DataType.INT8), (k_u8, ir.DataType.UINT8), (k_i32, ir.DataType.INT32)):
+        n_.outputs[0].type = ir.TensorType(dt)
+    c1 = node("Cast", [k_i8.outputs[0]], {"to": int(F)}, name="c1")
+    c2 = node("Cast", [k_u8.outputs[0]], {"to": int(F)}, name="c2")
+    c3 = node("Cast", [k_i32.outputs[0]], {"to": int(F)}, name="c3")
+    s_ = node("Sum", [x, c1.outputs[0], c2.outputs[0], c3.outputs[0], k_f32.outputs[0]], name="s")
+    m_ = node("Mul", [c1.outputs[0], c2.outputs[0]], name="m")
+    return model([x], [s_.outputs[0], m_.outputs[0]], [k_i8, k_u8, k_i32, k_f32, c1, c2, c3, s_, m_])
+
+
 MODELS = {
     "dup_add": m_dup_add, "dup_attr": m_dup_attr, "optional_inputs": m_optional_inputs, "multi_output": m_multi_output,
     "identity": m_identity, "dup_initializers": m_dup_initializers, "constants": m_constants, "if_capture": m_if_capture,
     "nested_if": m_nested_if, "loop": m_loop, "functions": m_functions, "function_old_opset": m_function_old_opset,
     "alias_outputs": m_alias_outputs, "unsorted": m_unsorted, "random": m_random, "init_inputs": m_init_inputs, "name_clash": m_name_clash,
     "bare_initializers": m_bare_initializers, "shadow_input": m_shadow_input, "branch_returns_initializer": m_branch_returns_initializer,
-    "batchnorm": m_batchnorm, "batchnorm_inference": m_batchnorm_inference,
+    "batchnorm": m_batchnorm, "batchnorm_inference": m_batchnorm_inference, "graphs_attr": m_graphs_attr, "function_falsy_defaults": m_function_falsy_defaults, "const_dtypes": m_const_dtypes,
 }
 
 
